@@ -300,6 +300,58 @@ def run_programs(chk, tier):
 
 
 # ------------------------------------------------------------------ (C) library calls keep the caller's units
+def run_reuse(chk, tier):
+    """Context OBJECTS kept and entered again later (never inside themselves), at other nesting depths and under other ambient
+    units, with exceptions: leaving a context must hand back the units that were active when THAT entry happened.
+    (Monitor only: the tree-shaped programs of Model.C05 create a fresh object per `with`; the expected behaviour here is the
+    plain stack discipline the theorem c05_contexts_restore_units states for them.)"""
+    import quantarhei as qr
+    m = qr.Manager()
+    r = cm.rng(PID + "reuse")
+    units = ["1/cm", "eV", "THz", "meV", "int", "1/fs"]
+    for k in range(60 if tier == "quick" else 800):
+        qr.set_current_units()
+        m._in_eu_count, m._in_energy_units_context = 0, False
+        pool = [(u, qr.energy_units(u)) for u in r.sample(units, 3)]
+        log = []
+
+        def go(depth, busy):
+            for _ in range(r.randint(1, 3)):
+                free = [i for i in range(len(pool)) if i not in busy]
+                if not free or depth == 0:
+                    return
+                i = r.choice(free)
+                before = m.get_current_units("energy")
+                boom = r.random() < 0.2
+                try:
+                    with pool[i][1]:
+                        inside = m.get_current_units("energy")
+                        log.append(("enter", pool[i][0], before, inside))
+                        want = ("int", "1/fs") if pool[i][0] in ("int", "1/fs") else (pool[i][0],)
+                        if inside not in want:
+                            raise AssertionError("inside a context of %s the units are %s" % (pool[i][0], inside))
+                        go(depth - 1, busy | {i})
+                        if boom:
+                            raise Marker()
+                except Marker:
+                    pass
+                after = m.get_current_units("energy")
+                log.append(("exit", pool[i][0], after))
+                if after != before:
+                    raise AssertionError("after leaving the re-used %s context (entered under %s) the active units are %s" % (pool[i][0], before, after))
+        c = {"kind": "reuse", "k": k}
+        try:
+            go(3, frozenset())
+            if m.get_current_units("energy") != "1/fs" or m._in_eu_count != 0 or m._in_energy_units_context:
+                raise AssertionError("manager not restored at top level: %r %r %r" % (m.get_current_units("energy"), m._in_eu_count, m._in_energy_units_context))
+        except AssertionError as e:
+            chk.violation("contexts:reused_object", "context objects re-used sequentially: %s; trace %s" % (e, json.dumps(log)[:700]), "monitor", dict(c, log=log))
+        chk.count("reuse")
+        chk.case(("reuse", k, json.dumps(log)), len(log) >= 4)
+    qr.set_current_units()
+    m._in_eu_count, m._in_energy_units_context = 0, False
+
+
 def library_calls():
     import numpy
     import quantarhei as qr
@@ -465,7 +517,7 @@ def main():
                 "energy/frequency/length contexts, exceptions, handlers, real Aggregate.build calls (succeeding and failing); (C) public "
                 "library calls inside contexts. Non-trivial: u != v; programs with >= 2 contexts; every library call")
     chk.assumptions = ["the conversion factors are read from quantarhei.core.units and handed to the model as exact rationals",
-                       "re-entering one context OBJECT twice is outside the model (each `with` creates a new object)",
+                       "re-entering one context OBJECT while it is active is outside the model (each `with` of the modelled programs creates a new object); objects kept and entered again LATER are covered by a monitor",
                        "length-unit conversions of positions are not in the accessor registry (only context handling)"]
     chk.prove()
     if args.replay:
@@ -473,6 +525,7 @@ def main():
         print("replay: re-running the full quick check (the recorded input is part of its deterministic stream): %s" % json.dumps(rep.get("input"))[:300])
     run_conversions(chk, args.tier)
     run_programs(chk, args.tier)
+    run_reuse(chk, args.tier)
     run_library_calls(chk, args.tier)
     chk.finish()
 
